@@ -61,8 +61,7 @@ func NewKeyring(keys map[string]string) (*Keyring, error) {
 		}
 		kr.addKey(&Key{Name: name, Type: "special", FA: fa})
 	}
-	kr.addKey(&Key{Name: "ZERO", Type: "special", FA: factom.FsAddress{}.FAAddress()})
-	kr.addKey(&Key{Name: "NULL", Type: "special", FA: factom.FAAddress{}})
+	// GlobalOldBurnAddress ("OLDBURN") is the all-zero address: before 2.0.2 it is the burn address of transfers
 	for i, d := range node.DeveloperRewardAddreses {
 		fa, err := factom.NewFAAddress(d.DevAddress)
 		if err != nil {
